@@ -195,8 +195,7 @@ Proof.
   rewrite transition_tensor_ttens. unfold tentry, pd, is_tumor_spread.
   destruct (e_kind e) eqn:K.
   - rewrite ttens_entry; try assumption; try lia; try discriminate.
-    + destruct (digit i x) as [|[|[|a]]], c as [|[|[|c]]]; reflexivity.
-    + destruct Hb; lia.
+    destruct (digit i x) as [|[|[|a]]], c as [|[|[|c]]]; reflexivity.
   - apply ttens_entry; try assumption; try discriminate.
     apply state_digit_lt; assumption.
   - apply andb_true_iff in Hk. destruct Hk as [Hpc Hb3].
@@ -219,11 +218,8 @@ Proof. unfold ents. rewrite map_map. reflexivity. Qed.
 Lemma ents_11 g lnl x : prodQ (ents g lnl x 1 1) = 1 - growth_prob g lnl.
 Proof.
   unfold ents, growth_prob, tentry. cbn [tent].
-  rewrite <- (prodQ_filter_if is_growth). unfold is_growth.
-  set (P := prodQ _). set (P' := prodQ _).
-  assert (E : P = P').
-  { subst P P'. apply prodQ_map_ext. intros e _. destruct (e_kind e); reflexivity. }
-  rewrite E. ring.
+  rewrite <- (prodQ_filter_if is_growth). unfold is_growth, kgrow.
+  set (P := prodQ _). ring.
 Qed.
 Lemma ents_12 g lnl x : prodQ (map (fun p => 1 - p) (ents g lnl x 1 2)) = 1 - growth_prob g lnl.
 Proof.
@@ -240,7 +236,8 @@ Lemma ents_zero g lnl x a c : (forall b k s m p, tent b k s m p a c = 0) ->
   prodQ (map (fun p => 1 - p) (ents g lnl x a c)) = 1.
 Proof.
   intros H. unfold ents, tentry. rewrite map_map.
-  rewrite <- (prodQ_map_one (inc_edges g lnl)). apply prodQ_map_ext. intros e _. rewrite H. ring.
+  rewrite (prodQ_map_ext _ (fun _ => 1)); [apply prodQ_map_one|].
+  intros e _. cbv beta. rewrite H. ring.
 Qed.
 
 (** the entry-level fold behind [lnl_transition_matrix] *)
@@ -290,4 +287,271 @@ Proof.
     cbn [Nat.eqb Nat.add lnl_factor];
     rewrite ?fold_mult_prodQ, ?fold_noisy_prodQ, ?ents_00, ?ents_01, ?ents_11, ?ents_12, ?ents_22;
     try (rewrite ents_zero by (intros; reflexivity)); ring.
+Qed.
+
+(** * Tabulation: the Impl matrices as tables over the state list *)
+Definition tab {X} (S : list X) (f : X -> X -> Qc) : mat := map (fun x => map (fun y => f x y) S) S.
+
+Lemma tab_ext {X} (S : list X) f f' :
+  (forall x y, In x S -> In y S -> f x y = f' x y) -> tab S f = tab S f'.
+Proof.
+  intros H. unfold tab. apply map_ext_in. intros x Hx. apply map_ext_in. intros y Hy. apply H; assumption.
+Qed.
+
+Lemma hadamard_tab {X} (S : list X) f f' :
+  hadamard (tab S f) (tab S f') = tab S (fun x y => f x y * f' x y).
+Proof.
+  unfold hadamard, tab. rewrite map2_map_map. apply map_ext. intros x.
+  unfold vmul. rewrite map2_map_map. reflexivity.
+Qed.
+
+Lemma ones_tab {X} (S : list X) :
+  repeat (ones (length S)) (length S) = tab S (fun _ _ => 1).
+Proof. unfold tab, ones. rewrite <- !map_const_repeat. reflexivity. Qed.
+
+(** parent column of an arc *)
+Lemma par_col g e :
+  wf_graphb g = true -> In e (g_edges g) ->
+  (if is_tumor_spread e then repeat 0%nat (Nat.pow (g_base g) (nlnls g))
+   else state_idx_col (index_of (e_parent e) (lnls g)) (nlnls g) (g_base g))
+  = map (pd g e) (state_list g).
+Proof.
+  intros Hwf He. unfold pd, state_list.
+  destruct (is_tumor_spread e) eqn:T.
+  - rewrite map_const_repeat, all_states_length. reflexivity.
+  - unfold parent_digit. rewrite <- digits_of_all_states; [reflexivity|].
+    pose proof (wf_edges g e Hwf He) as Hwe. unfold wf_edge in Hwe.
+    apply andb_true_iff in Hwe. destruct Hwe as [Hmc Hk].
+    unfold is_tumor_spread in T. unfold nlnls. apply index_of_lt.
+    destruct (e_kind e); try discriminate.
+    + apply andb_true_iff in Hk. destruct Hk as [Hk _]. apply mem_In. exact Hk.
+    + apply andb_true_iff in Hk. destruct Hk as [Hk _].
+      unfold str_eqb in Hk. apply String.eqb_eq in Hk. rewrite Hk. apply mem_In. exact Hmc.
+Qed.
+
+Lemma lnl_matrix_fold g i (S : list state) (l : list edge) :
+  (forall e, In e l -> (if is_tumor_spread e then repeat 0%nat (Nat.pow (g_base g) (nlnls g))
+     else state_idx_col (index_of (e_parent e) (lnls g)) (nlnls g) (g_base g)) = map (pd g e) S) ->
+  forall f : state -> state -> Qc,
+  fold_left (fun (M : mat) (e : edge) =>
+    let T := transition_tensor (g_base g) e in
+    let par := if is_tumor_spread e then repeat 0%nat (Nat.pow (g_base g) (nlnls g))
+               else state_idx_col (index_of (e_parent e) (lnls g)) (nlnls g) (g_base g) in
+    let grid : mat := map2 (fun p c => map (fun nw => tget T p c nw) (map (digit i) S)) par (map (digit i) S) in
+    map3 (fun c Mrow Grow => map3 (update_rule c) (map (digit i) S) Mrow Grow) (map (digit i) S) M grid)
+    l (tab S f)
+  = tab S (fun x y => fold_left (fun m e =>
+        update_rule (digit i x) (digit i y) m
+          (tget (transition_tensor (g_base g) e) (pd g e x) (digit i x) (digit i y))) l (f x y)).
+Proof.
+  induction l as [|e l IH]; intros Hpar f; cbn [fold_left]; [reflexivity|].
+  cbv zeta. rewrite (Hpar e) by (left; reflexivity).
+  rewrite map2_map_map.
+  unfold tab at 1. rewrite map3_map_map_map.
+  rewrite (map_ext _ (fun x => map (fun y => update_rule (digit i x) (digit i y) (f x y)
+             (tget (transition_tensor (g_base g) e) (pd g e x) (digit i x) (digit i y))) S)).
+  2:{ intros x. rewrite map_map. rewrite map3_map_map_map. reflexivity. }
+  apply (IH (fun e' H => Hpar e' (or_intror H))
+            (fun x y => update_rule (digit i x) (digit i y) (f x y)
+               (tget (transition_tensor (g_base g) e) (pd g e x) (digit i x) (digit i y)))).
+Qed.
+
+Lemma lnl_matrix_tab g i lnl :
+  wf_graphb g = true -> (i < nlnls g)%nat ->
+  lnl_transition_matrix g i lnl
+  = tab (state_list g) (fun x y => Fent g lnl x (digit i x) (digit i y)).
+Proof.
+  intros Hwf Hi. unfold lnl_transition_matrix. cbv zeta.
+  rewrite <- (digits_of_all_states (g_base g) (nlnls g) i Hi).
+  fold (state_list g).
+  rewrite map_map.
+  rewrite (map_ext _ (fun x => map (fun y => if Nat.eqb (digit i y) (digit i x) then 1 else 0) (state_list g))).
+  2:{ intros x. rewrite map_map. reflexivity. }
+  change (map (fun x => map (fun y => if Nat.eqb (digit i y) (digit i x) then 1 else 0) (state_list g)) (state_list g))
+    with (tab (state_list g) (fun x y => if Nat.eqb (digit i y) (digit i x) then 1 else 0)).
+  rewrite (lnl_matrix_fold g i (state_list g) (inc_edges g lnl)).
+  - reflexivity.
+  - intros e He. apply inc_edges_In in He. destruct He as [He _]. apply par_col; assumption.
+Qed.
+
+Lemma generate_fold g (S : list state) (l : list (nat * string)) (h : nat * string -> state -> state -> Qc) :
+  (forall il, In il l -> lnl_transition_matrix g (fst il) (snd il) = tab S (h il)) ->
+  forall f,
+  fold_left (fun (TM : mat) '(i, lnl) => hadamard TM (lnl_transition_matrix g i lnl)) l (tab S f)
+  = tab S (fun x y => f x y * prodQ (map (fun il => h il x y) l)).
+Proof.
+  induction l as [|[i lnl] l IH]; intros H f; cbn [fold_left map prodQ].
+  - apply tab_ext. intros. ring.
+  - pose proof (H (i, lnl) (or_introl eq_refl)) as H1. cbn [fst snd] in H1.
+    rewrite H1, hadamard_tab.
+    rewrite IH by (intros il Hil; apply H; right; exact Hil).
+    apply tab_ext. intros. ring.
+Qed.
+
+Lemma transition_entries : C05_transition_entries_stmt.
+Proof.
+  intros g Hwf. unfold generate_transition, trans_spec_matrix. cbv zeta.
+  assert (HN : Nat.pow (g_base g) (nlnls g) = length (state_list g)).
+  { unfold state_list. rewrite all_states_length. reflexivity. }
+  rewrite HN, ones_tab.
+  rewrite (generate_fold g (state_list g) _
+             (fun il x y => Fent g (snd il) x (digit (fst il) x) (digit (fst il) y))).
+  - apply tab_ext. intros x y Hx Hy. unfold trans_spec. rewrite Qcmult_1_l.
+    apply prodQ_map_ext. intros [i lnl] Hil. cbn [fst snd].
+    apply Fent_factor; try assumption. apply state_digit_lt; assumption.
+  - intros [i lnl] Hil. cbn [fst snd]. apply lnl_matrix_tab; [exact Hwf|].
+    apply in_combine_l in Hil. apply in_seq in Hil. lia.
+Qed.
+
+(** * Node level agrees with the Spec *)
+Lemma fold_mult_pairs {A B} (h : A -> B -> Qc) l : forall acc,
+  fold_left (fun a '(i, s) => a * h i s) l acc = acc * prodQ (map (fun '(i, s) => h i s) l).
+Proof.
+  induction l as [|[i s] l IH]; intros acc; cbn [fold_left prodQ map]; [ring|].
+  rewrite IH. ring.
+Qed.
+
+Lemma transition_prob_agrees : C05_transition_prob_agrees_stmt.
+Proof.
+  intros g x y Hwf Hx Hy. unfold transition_prob, trans_spec.
+  rewrite (fold_mult_pairs (fun i lnl => comp_trans_prob g x i lnl (digit i y))).
+  rewrite Qcmult_1_l. apply prodQ_map_ext. intros [i lnl] Hil.
+  apply comp_trans_prob_factor; try assumption. apply state_digit_lt; assumption.
+Qed.
+
+(** * No regression, no skipping *)
+Lemma lnl_factor_support g x lnl a c :
+  lnl_factor g x lnl a c <> 0 -> (a <= c <= a + 1)%nat.
+Proof.
+  destruct a as [|[|[|a]]], c as [|[|[|c]]]; cbn [lnl_factor]; intros H; try lia; exfalso; apply H; reflexivity.
+Qed.
+
+Lemma combine_seq_nth {A} (l : list A) (d : A) : forall k i, (i < length l)%nat ->
+  In ((k + i)%nat, nth i l d) (combine (seq k (length l)) l).
+Proof.
+  induction l as [|a l IH]; intros k i Hi; cbn [length] in Hi; [lia|].
+  cbn [length seq combine]. destruct i as [|i]; cbn [nth].
+  - left. f_equal. lia.
+  - right. replace (k + S i)%nat with (S k + i)%nat by lia. apply IH. lia.
+Qed.
+
+Lemma never_regresses_never_skips : C05_never_regresses_never_skips_stmt.
+Proof.
+  intros g x y Hwf Hx Hy Hne i Hi.
+  apply (lnl_factor_support g x (nth i (lnls g) EmptyString)).
+  intros H0. apply Hne. unfold trans_spec. apply prodQ_zero_in.
+  apply in_map_iff. exists (i, nth i (lnls g) EmptyString). split; [exact H0|].
+  unfold nlnls in *. apply (combine_seq_nth (lnls g) EmptyString 0 i Hi).
+Qed.
+
+(** * Entries lie in the unit interval *)
+Lemma Qc_unit_compl a : 0 <= a <= 1 -> 0 <= 1 - a <= 1.
+Proof.
+  intros [H1 H2]. qc2q. revert H1 H2. generalize (this a). intros; split; lra.
+Qed.
+Lemma Qc_unit_mul a b : 0 <= a <= 1 -> 0 <= b <= 1 -> 0 <= a * b <= 1.
+Proof.
+  intros [H1 H2] [H3 H4]. qc2q. revert H1 H2 H3 H4. generalize (this a) (this b). intros; split; nra.
+Qed.
+Lemma Qc_unit_0 : 0 <= 0 <= 1. Proof. split; discriminate. Qed.
+Lemma Qc_unit_1 : 0 <= 1 <= 1. Proof. split; discriminate. Qed.
+
+Lemma prodQ_map_unit {A} (f : A -> Qc) l :
+  (forall a, In a l -> 0 <= f a <= 1) -> 0 <= prodQ (map f l) <= 1.
+Proof.
+  intros H. apply prodQ_unit. intros q Hq. apply in_map_iff in Hq. destruct Hq as [a [<- Ha]]. apply H, Ha.
+Qed.
+
+Lemma arc_prob_unit g e x : 0 <= e_spread e <= 1 -> 0 <= e_micro e <= 1 -> 0 <= arc_prob g e x <= 1.
+Proof.
+  intros Hs Hm. unfold arc_prob.
+  destruct (e_kind e); [exact Hs| |exact Qc_unit_0].
+  destruct (parent_digit g e x) as [|[|p]]; [exact Qc_unit_0| |exact Hs].
+  destruct (Nat.eqb (g_base g) 3); [apply Qc_unit_mul; assumption|exact Hs].
+Qed.
+
+Lemma lnl_factor_unit g x lnl a c : params_in_unit g -> 0 <= lnl_factor g x lnl a c <= 1.
+Proof.
+  intros Hp.
+  assert (Hsh : 0 <= stay_healthy g lnl x <= 1).
+  { unfold stay_healthy. apply prodQ_map_unit. intros e He. apply inc_edges_In in He. destruct He as [He _].
+    apply Qc_unit_compl, arc_prob_unit; apply (Hp e He). }
+  assert (Hgp : 0 <= growth_prob g lnl <= 1).
+  { unfold growth_prob. apply Qc_unit_compl. apply prodQ_map_unit. intros e He.
+    apply filter_In in He. destruct He as [He _]. apply inc_edges_In in He. destruct He as [He _].
+    apply Qc_unit_compl. apply (Hp e He). }
+  destruct a as [|[|[|a]]], c as [|[|[|c]]]; cbn [lnl_factor];
+    first [exact Qc_unit_0 | exact Qc_unit_1 | assumption | apply Qc_unit_compl; assumption].
+Qed.
+
+Lemma entries_in_unit_interval : C05_entries_in_unit_interval_stmt.
+Proof.
+  intros g x y Hwf Hp Hx Hy. unfold trans_spec. apply prodQ_map_unit.
+  intros [i lnl] _. apply lnl_factor_unit, Hp.
+Qed.
+
+(** * Rows sum to one *)
+Lemma prod_digits (l : list string) : forall (k : nat) (h : nat -> string -> nat -> Qc) (y : state),
+  length y = length l ->
+  prodQ (map (fun '(i, s) => h i s (nth (i - k) y 0%nat)) (combine (seq k (length l)) l))
+  = prod_over (map (fun '(i, s) => h i s) (combine (seq k (length l)) l)) y.
+Proof.
+  induction l as [|a l IH]; intros k h [|d y] Hlen; try discriminate;
+    cbn [length seq combine map prodQ prod_over]; [reflexivity|].
+  replace (k - k)%nat with 0%nat by lia. cbn [nth]. f_equal.
+  rewrite <- (IH (S k) h y) by (cbn [length] in Hlen; lia).
+  apply prodQ_map_ext. intros [i s] Hin. apply in_combine_l in Hin. apply in_seq in Hin.
+  replace (i - k)%nat with (S (i - S k)) by lia. reflexivity.
+Qed.
+
+Lemma filter_nil {A} (p : A -> bool) l : (forall a, In a l -> p a = false) -> filter p l = [].
+Proof.
+  induction l as [|a l IH]; intros H; cbn [filter]; [reflexivity|].
+  rewrite (H a) by (left; reflexivity). apply IH. intros a' Ha'. apply H. right. exact Ha'.
+Qed.
+
+Lemma growth_prob_binary g lnl : wf_graphb g = true -> g_base g = 2%nat -> growth_prob g lnl = 0.
+Proof.
+  intros Hwf Hb. unfold growth_prob.
+  rewrite filter_nil.
+  - cbn [map prodQ]. ring.
+  - intros e He. apply inc_edges_In in He. destruct He as [He _].
+    pose proof (wf_edges g e Hwf He) as Hwe. unfold wf_edge in Hwe.
+    apply andb_true_iff in Hwe. destruct Hwe as [_ Hk]. unfold is_growth.
+    destruct (e_kind e); try reflexivity.
+    apply andb_true_iff in Hk. destruct Hk as [_ Hk]. rewrite Hb in Hk. discriminate.
+Qed.
+
+Lemma lnl_factor_sum g x lnl a :
+  wf_graphb g = true -> (a < g_base g)%nat ->
+  sumQ (map (lnl_factor g x lnl a) (seq 0 (g_base g))) = 1.
+Proof.
+  intros Hwf Ha. destruct (wf_base g Hwf) as [Hb|Hb].
+  - pose proof (growth_prob_binary g lnl Hwf Hb) as Hg. rewrite Hb in *.
+    destruct a as [|[|a]]; try lia; cbn [seq map sumQ lnl_factor]; rewrite ?Hg; ring.
+  - rewrite Hb in *.
+    destruct a as [|[|[|a]]]; try lia; cbn [seq map sumQ lnl_factor]; ring.
+Qed.
+
+Lemma trans_spec_prod_over g x y : length y = nlnls g ->
+  trans_spec g x y
+  = prod_over (map (fun '(i, s) => lnl_factor g x s (digit i x)) (combine (seq 0 (nlnls g)) (lnls g))) y.
+Proof.
+  intros Hlen. unfold trans_spec, nlnls in *.
+  rewrite <- (prod_digits (lnls g) 0 (fun i s => lnl_factor g x s (digit i x)) y Hlen).
+  apply prodQ_map_ext. intros [i s] _. rewrite Nat.sub_0_r. reflexivity.
+Qed.
+
+Lemma row_sums : C05_row_sums_stmt.
+Proof.
+  intros g x Hwf Hx.
+  set (fs := map (fun '(i, s) => lnl_factor g x s (digit i x)) (combine (seq 0 (nlnls g)) (lnls g))).
+  assert (Hfs : length fs = nlnls g).
+  { subst fs. rewrite map_length, combine_length, seq_length. unfold nlnls. apply Nat.min_id. }
+  rewrite (map_ext_in _ (prod_over fs)).
+  2:{ intros y Hy. apply trans_spec_prod_over. apply all_states_In in Hy. tauto. }
+  unfold state_list. rewrite <- Hfs, sum_prod_states.
+  subst fs. rewrite map_map.
+  rewrite (prodQ_map_ext _ (fun _ => 1)); [apply prodQ_map_one|].
+  intros [i s] _. apply lnl_factor_sum; [exact Hwf|]. apply state_digit_lt; assumption.
 Qed.
